@@ -15,7 +15,7 @@ import (
 )
 
 func init() {
-	register(&Rule{ID: "T-INDEX", Props: []string{"C12", "C04", "C01", "C08"}, Floor: 13,
+	register(&Rule{ID: "T-INDEX", Props: []string{"C12", "C04", "C01", "C08", "C02", "C10", "C13", "C16", "C17", "C18", "C19", "C20"}, Floor: 13,
 		Doc: "Bracket specifiers, by path enumeration of the index/slice parser over a symbolic token stream (helpers inlined, any source form): the token sequences it accepts are exactly `n ]`, `[n] : [n] ]` and `[n] : [n] : [n] ]`; every consumed token is pinned to one type; an index node carries the integer parsed from its token (the small form only under 0..255); a slice node carries the parsed bounds or the defaults 0 / MaxInt / 1, with MaxInt / MinInt for absent bounds exactly when the parsed step is negative; a zero step is never accepted; slices, and only slices, are reported as projections.",
 		Run: ruleTIndex})
 }
@@ -57,16 +57,20 @@ func ruleTIndex(p *Program, r *Reporter) {
 		r.Unknown(token.NoPos, "parser model", d.why)
 		return
 	}
-	// the bracket-specifier parser: (Node) (Node, bool, error)
-	cands := d.methodBySig(func(sig *types.Signature) bool {
-		return sig.Params().Len() == 1 && isNodeType(sig.Params().At(0).Type()) && sig.Results().Len() == 3 &&
-			isNodeType(sig.Results().At(0).Type()) && isBoolType(sig.Results().At(1).Type()) && isErrorType(sig.Results().At(2).Type())
-	})
-	if len(cands) != 1 {
-		r.Unknown(token.NoPos, "index parser", fmt.Sprintf("%d parser methods with signature (Node) (Node, bool, error); expected the one bracket-specifier parser", len(cands)))
+	// the bracket-specifier parser: (Node) (Node, bool, error), or (Node) (Node, error) when it wraps a slice in its
+	// projection itself instead of telling the caller to
+	rl := d.inferRoles()
+	fn := rl.index
+	if fn == nil {
+		r.Unknown(token.NoPos, "index parser", "no parser method builds index nodes from a bracket specifier")
 		return
 	}
-	fn := cands[0]
+	pw, pwWhy := d.powers()
+	if pwWhy != "" {
+		r.Unknown(token.NoPos, "binding powers", pwWhy)
+		return
+	}
+	selfWrapping := fn.Signature.Results().Len() == 2
 	name := "parser." + fn.Name()
 	type want struct{ start, stop, step bool }
 	for _, withChild := range []bool{false, true} {
@@ -90,10 +94,40 @@ func ruleTIndex(p *Program, r *Reporter) {
 				r.Unknown(fn.Pos(), name+" "+cs+" incomplete path", "a path ends in a panic or an unexpected loop")
 				continue
 			}
-			if len(o.Res) != 3 || !isDefNil(o.Res[2]) {
+			if len(o.Res) < 2 || !isDefNil(o.Res[len(o.Res)-1]) {
 				continue // error path
 			}
 			items, _, _ := d.consumed(o.St)
+			if selfWrapping {
+				// normalise to the (node, is-a-projection) form: a slice comes back as ProjectArrayNode{Left: slice, Right: rhs}
+				// where rhs is what the projection parser returned after the bracket, or the current node when it returned nil
+				res0 := o.Res[0]
+				flag := false
+				if dynName(res0) == "ProjectArrayNode" {
+					f := o.St.fieldsOf(res0)
+					var projEv *Event
+					if n := len(items); n > 0 && items[n-1].Ev != nil && rl.byFn[items[n-1].Ev.Fn] == "PROJ" {
+						projEv = items[n-1].Ev
+						items = items[:n-1]
+					}
+					okWrap := projEv != nil
+					if okWrap {
+						if pv, known := o.St.KnownInt(projEv.Args[1]); !known || pv != pw["ObjectWildcardToken"] {
+							okWrap = false
+						}
+						right := f["Right"]
+						if !(avKey(right) == avKey(projEv.Res[0]) || dynName(right) == "CurrentNode") {
+							okWrap = false
+						}
+					}
+					if !okWrap {
+						r.Bad(o.Ret.Pos(), fmt.Sprintf("%s %s slice projection [%s", name, cs, patString(items)), "a slice is not wrapped as ProjectArrayNode{Left: slice, Right: the selectors that follow parsed at the object-wildcard power, or the current node}")
+						continue
+					}
+					res0, flag = f["Left"], true
+				}
+				o.Res = []AV{res0, avConst{constant.MakeBool(flag)}, avNil{}}
+			}
 			pat := patString(items)
 			pos := o.Ret.Pos()
 			key := fmt.Sprintf("%s %s accepts [%s -> %s", name, cs, pat, dynName(o.Res[0]))
@@ -294,7 +328,7 @@ func boundStr(v int64) string {
 // ---------------------------------------------------------------- T-FUNC
 
 func init() {
-	register(&Rule{ID: "T-FUNC", Props: []string{"C02", "C08", "C04"}, Floor: 12,
+	register(&Rule{ID: "T-FUNC", Props: []string{"C02", "C08", "C04", "C01", "C10", "C12", "C13", "C16", "C17", "C18", "C19", "C20"}, Floor: 12,
 		Doc: "Function calls, by path enumeration of the function-call parser with the name pinned to each built-in of the specification in turn (arity helpers inlined whatever their form; only the expression entry is opaque): the accepted argument lists are exactly `arg {, arg} )` with the specified minimum and maximum count and `&` exactly at the specified position; the node built is the specified one for that count and carries the parsed arguments in order; arguments are parsed below every operator's binding power; too few or too many arguments yield InvalidFunctionCallError, a missing `&` InvalidFunctionArgumentError, an unknown name UnknownFunctionError.",
 		Run: ruleTFunc})
 }
